@@ -106,6 +106,40 @@ const maxSubsetEffects = 6
 // Enumerate calls fn for every image choice of the model. It returns false when some inode had more than
 // maxSubsetEffects unsynced effects, so that only prefixes (not all subsets) were enumerated for it.
 func (f *FS) Enumerate(powerLoss bool, fn func(Choice)) (allSubsets bool) {
+	return f.EnumerateAt(powerLoss, nil, fn)
+}
+
+// partials lists the byte prefixes 0 < p < writeLen at which a write is cut. lengths == nil: every byte.
+// Otherwise a boundary alphabet: 1, writeLen-1 and l-1, l, l+1 for every l in lengths (the lengths of the
+// other file images in play, where "shorter / equal / longer than what is already there" changes).
+func partials(writeLen int, lengths []int) []int {
+	var out []int
+	if lengths == nil {
+		for p := 1; p < writeLen; p++ {
+			out = append(out, p)
+		}
+		return out
+	}
+	seen := map[int]bool{}
+	add := func(p int) {
+		if p > 0 && p < writeLen && !seen[p] {
+			seen[p] = true
+			out = append(out, p)
+		}
+	}
+	add(1)
+	for _, l := range lengths {
+		add(l - 1)
+		add(l)
+		add(l + 1)
+	}
+	add(writeLen - 1)
+	return out
+}
+
+// EnumerateAt is Enumerate with the byte positions of torn writes restricted to the boundary alphabet derived
+// from lengths (see partials); used for the intermediate crashes of multi-save histories.
+func (f *FS) EnumerateAt(powerLoss bool, lengths []int, fn func(Choice)) (allSubsets bool) {
 	allSubsets = true
 	n := len(f.Log())
 	for cut := 0; cut <= n; cut++ {
@@ -113,7 +147,7 @@ func (f *FS) Enumerate(powerLoss bool, fn func(Choice)) (allSubsets bool) {
 			fn(Choice{Cut: cut})
 			if cut < n {
 				if o := f.Log()[cut]; o.Kind == "write" {
-					for part := 1; part < o.Len; part++ {
+					for _, part := range partials(o.Len, lengths) {
 						fn(Choice{Cut: cut, Partial: part})
 					}
 				}
@@ -148,7 +182,7 @@ func (f *FS) Enumerate(powerLoss bool, fn func(Choice)) (allSubsets bool) {
 				// last kept unsynced write, byte-partial
 				for j := len(idx) - 1; j >= 0; j-- {
 					if j < 64 && m&(1<<uint(j)) != 0 && p.ops[idx[j]].Kind == "write" {
-						for l := 1; l < p.ops[idx[j]].Len; l++ {
+						for _, l := range partials(p.ops[idx[j]].Len, lengths) {
 							alts[k] = append(alts[k], InoChoice{Ino: ino, Mask: m, LastLen: l})
 						}
 						break
